@@ -225,6 +225,99 @@ def loopRes : List Resp → LoopRes
 def AOp.ofScript (script : List Resp) (mids : List (Nat × Nat)) : AOp :=
   .tick (decide ((loopRes script).fin = .completed)) mids
 
+/-! ### The reporting loop (`reportUsagePeriodically`) against a one-slot client
+
+The loop runs `sendUsageReport` *synchronously* on every tick of its ticker (channel of capacity 1:
+one tick is remembered while the loop is busy, further ones are dropped).  The OpAMP client holds
+at most one custom message; while the slot is occupied `SendCustomMessage` answers "pending" with
+the occupant's channel; the channel is closed when the occupant has gone out (`confirm`).
+`accept` is how the client answers when the slot is free (accept / other error). -/
+
+inductive Phase where
+  | idle                         -- at the loop's select
+  | waitOther (r : Report)       -- first send answered "pending": waiting for the occupant
+  | waitOwn (r : Report)         -- report accepted: waiting for it to go out
+  deriving Repr, DecidableEq
+
+inductive Slot where
+  | free | other | report (r : Report)
+  deriving Repr, DecidableEq
+
+structure LSt where
+  st : St := {}
+  phase : Phase := .idle
+  slot : Slot := .free
+  tickBuf : Bool := false
+  accept : Bool := true
+
+inductive LOp where
+  | add (s v : Nat)
+  | tick (accept : Bool)        -- one report interval elapses
+  | confirm (accept : Bool)     -- the message in the slot has gone out
+  | other                       -- some other custom message takes the slot
+  deriving Repr, DecidableEq
+
+/-- result of a loop-level operation: new state, the tracker calls made, the reports the client
+accepted, the number of `SendCustomMessage` calls -/
+structure LRes where
+  l : LSt
+  trace : List Op := []
+  acc : List Report := []
+  sends : Nat := 0
+
+/-- the loop takes a tick: `NewReport`, first `SendCustomMessage` -/
+def startIter (fixed : Bool) (l : LSt) : LRes :=
+  match step fixed l.st .report with
+  | (st1, .report r) =>
+    match l.slot with
+    | .free =>
+      if l.accept then ⟨{ l with st := st1, phase := .waitOwn r, slot := .report r }, [.report], [r], 1⟩
+      else ⟨{ l with st := (step fixed st1 .fail).1 }, [.report, .fail], [], 1⟩
+    | _ => ⟨{ l with st := st1, phase := .waitOther r }, [.report], [], 1⟩
+  | (st1, _) => ⟨{ l with st := st1 }, [.report], [], 0⟩
+
+/-- back at the select: a remembered tick starts the next iteration at once -/
+def drain (fixed : Bool) (l : LSt) : LRes :=
+  if l.tickBuf then startIter fixed { l with tickBuf := false } else ⟨l, [], [], 0⟩
+
+def LRes.andThen (a : LRes) (f : LSt → LRes) : LRes :=
+  let b := f a.l
+  ⟨b.l, a.trace ++ b.trace, a.acc ++ b.acc, a.sends + b.sends⟩
+
+def lstep (fixed : Bool) (l : LSt) : LOp → LRes
+  | .add s v => ⟨{ l with st := (step fixed l.st (.add s v)).1 }, [.add s v], [], 0⟩
+  | .tick a =>
+    let l := { l with accept := a }
+    match l.phase with
+    | .idle => startIter fixed l
+    | _ => ⟨{ l with tickBuf := true }, [], [], 0⟩
+  | .other =>
+    match l.slot with
+    | .free => ⟨{ l with slot := .other }, [], [], 0⟩
+    | _ => ⟨l, [], [], 0⟩
+  | .confirm a =>
+    let l := { l with accept := a }
+    match l.slot with
+    | .free => ⟨l, [], [], 0⟩
+    | _ =>
+      let l := { l with slot := .free }
+      match l.phase with
+      | .idle => ⟨l, [], [], 0⟩
+      | .waitOwn _ =>
+        LRes.andThen ⟨{ l with st := (step fixed l.st .sent).1, phase := .idle }, [.sent], [], 0⟩ (drain fixed)
+      | .waitOther r =>
+        if l.accept then ⟨{ l with phase := .waitOwn r, slot := .report r }, [], [r], 1⟩
+        else LRes.andThen ⟨{ l with st := (step fixed l.st .fail).1, phase := .idle }, [.fail], [], 1⟩ (drain fixed)
+
+def lrunFrom (fixed : Bool) (l : LSt) (ops : List LOp) : LSt := ops.foldl (fun l o => (lstep fixed l o).l) l
+
+def lrun (fixed : Bool) (ops : List LOp) : LSt := lrunFrom fixed {} ops
+
+/-- the history of tracker calls a loop-level history amounts to -/
+def ltrace (fixed : Bool) (l : LSt) : List LOp → List Op
+  | [] => []
+  | o :: r => (lstep fixed l o).trace ++ ltrace fixed (lstep fixed l o).l r
+
 /-! ## Quantities of the property -/
 
 /-- every contribution the model still knows about, wherever it is -/
